@@ -41,6 +41,7 @@ func randomTips(tr *tree.Tree, n int) (sampled []string) {
 			sampled[i] = tip.Name()
 		} else {
 			j := rand.Intn(i + 1)
+			verifDraw("prune-random", i+1, j)
 			if j < n {
 				sampled[j] = tip.Name()
 			}
